@@ -37,7 +37,12 @@ RULE = ("random histories of 2-30 steps over {call, acked/unacked publish, subsc
         "call/publish option, progressive shapes and reply permutations with encoded requests and encoded RESULT/ERROR/EVENT payloads (20% of the random "
         "sessions); call cancellation: cancel() before/after progress x router answer {RESULT, ERROR canceled, progress+RESULT, progress+ERROR, nothing} x "
         "position among the other replies x repeated cancel (also random); progressive RESULTs nobody asked for: calls without "
-        "CallOptions / with CallOptions lacking on_progress x chunk shapes x 1-2 chunks x final ok/ERROR (also random). A case is non-trivial when at least one "
+        "CallOptions / with CallOptions lacking on_progress x chunk shapes x 1-2 chunks x final ok/ERROR (also random); re-entrant requests: every outer request kind "
+        "(7, incl. unacknowledged publish) x router message delivered from INSIDE its send() {own progressive RESULT, another call's progressive RESULT, EVENT, INVOCATION, "
+        "another request's RESULT/ERROR (inside send() on Twisted, right after the call returned on asyncio), three messages} x nested request kind issued by that handler (5), "
+        "then further requests and all replies, nested-first or nested-last (also random: 10% of the requests); mapped error classes: {6 constructor signatures registered with "
+        "define() decorated/explicit, the 2 URIs the library maps itself} x 12 ERROR payloads around those signatures x the six request kinds, other requests outstanding, "
+        "further mapped ERRORs among their replies (also random: 30% of the sessions define 1-4 classes). A case is non-trivial when at least one "
         "router reply/unmatched reply was delivered and compared; distinct = hash(framework, transport config, step list).")
 ASSUMPTIONS = [
     "the scripted router only sends messages a conforming router could send, except for the final 'violate' step",
@@ -71,6 +76,16 @@ ASSUMPTIONS = [
     "a progressive RESULT for a pending call that has no progress handler (no receive_progress in the CALL) is not that call's reply: it must not complete the call or "
     "touch anything else; ignoring it and failing the transport as a PROTOCOL violation (close 1002 / drop / abort) are both accepted, an internal error (close 1011) is "
     "not; where the close code is invisible (failByDrop, RawSocket) a failed transport is accepted; if the session survives, the genuine final reply must complete the call",
+    "re-entrant requests: the transport wrapper (vf.c04_model.SyncTransport) hands scripted router messages to session.onMessage() while the outer request is still "
+    "inside send() - what an in-process router does when the peer reacts synchronously (protocol.py caters for this: 'a mock- or side-by-side transport will immediately "
+    "lead on an incoming WAMP message in onMessage()'); the event loop / reactor is never run inside send(), so only code the library itself calls synchronously runs there "
+    "(on_progress, event handlers, endpoints; Deferred callbacks on Twisted - a terminal reply to another request is therefore delivered after the API call returned on asyncio); "
+    "expected: ids in wire order (outer, then nested), no gap afterwards, every request completes with its own reply",
+    "mapped error classes: an ERROR bearing a URI that is mapped to an exception class (ISession.define(), or wamp.error.invalid_payload / wamp.error.payload_size_exceeded which "
+    "the library maps to SerializationError / PayloadExceededError) must complete its request exactly once with an error: EITHER an instance of the mapped class holding exactly "
+    "the reply's payload (bound to a reference signature in vf/c04_model.py; only when the payload fits the constructor) OR an ApplicationError with the reply's URI/args/kwargs; "
+    "whether the mapped class is preferred when it fits is not judged; onUserError('While re-constructing exception') is accepted once per reply whose payload does not fit; "
+    "exception classes deriving from ApplicationError (whose first constructor argument is the URI) are not generated",
     "pending-table sizes (_call_reqs ...) and txaio.resolve/reject attempt counts are hooks for leak / double-completion detection",
     "the 2^53 boundary is reached by presetting IdGenerator._next after the join",
     "not generated (grey zones): float timeouts, an unsubscribe of the last handler racing with an in-flight subscribe to the same subscription id, "
@@ -101,9 +116,16 @@ DECIDING = {
     "cancels_issued": 200, "cancel_messages_compared": 200, "repeated_cancels_checked": 30, "replies_to_cancelled_call": 200,
     "unsolicited_progress_delivered": 200, "unsolicited_progress_classes": 2, "final_replies_after_unsolicited_progress": 50,
     "cancelled_call_replies": 3, "outstanding_across_reply_to_cancelled": 300, "own_reply_completions_after_absorbed_reply": 200,
+    # requests issued re-entrantly: a router message delivered inside another request's send(), its handler issues the request
+    "reentrant_sends": 300, "messages_delivered_inside_send": 300, "reentrant_requests_verified": 300, "ids_checked_inside_send": 300,
+    "ids_checked_after_reentrant_request": 500, "reentrant_completions_compared": 300, "reentrant_sites": 100,
+    # ERROR replies whose URI is mapped to an exception class (define() / mapped by the library) x payload fits / does not fit
+    "mapped_error_replies_compared": 500, "mapped_error_fits": 200, "mapped_error_misfits": 200, "mapped_class_instances_compared": 200,
+    "mapped_error_generic_compared": 200, "default_mapped_error_replies": 100, "mapped_error_classes": 60,
 }
 
-DISTINCT_DECIDING = ("sync_reply_kinds", "object_form_option_sources", "cancelled_call_replies", "unsolicited_progress_classes")      # sizes of distinct sets, not counters
+DISTINCT_DECIDING = ("sync_reply_kinds", "object_form_option_sources", "cancelled_call_replies", "unsolicited_progress_classes", "reentrant_sites",
+                     "mapped_error_classes")      # sizes of distinct sets, not counters
 
 SERIALIZERS = ["json", "cbor", "msgpack", "ubjson"]
 RS_MAX_EXP = 12
@@ -111,7 +133,36 @@ FORWARD_FOR = [{"session": 4711, "authid": "rlink-ä", "authrole": "rlink"}, {"s
 VALUES = [0, 1, -1, 2 ** 53, -(2 ** 31), 0.5, -2.25, True, False, None, "", "ünï©ode-✓", [1, [2, [3]]],
           {"k": {"n": None}}, "x" * 200]
 ERR_URIS = ["com.c04.error.custom", "wamp.error.no_such_procedure", "wamp.error.not_authorized", "wamp.error.invalid_argument",
-            "wamp.error.no_such_subscription", "wamp.error.procedure_already_exists", "wamp.error.canceled"]
+            "wamp.error.no_such_subscription", "wamp.error.procedure_already_exists", "wamp.error.canceled",
+            "wamp.error.invalid_payload", "wamp.error.payload_size_exceeded"]       # the last two are mapped to exception classes by the library itself
+DEF_URI = "com.c04.error.defined.%s"
+
+
+def gen_defs(rng, names=None):
+    """Exception classes the session registers with define(): decorated (@wamp.error(uri)) or with an explicit URI."""
+    names = names or rng.sample(M.ERROR_CLASS_NAMES, rng.randint(1, 4))
+    return [{"uri": DEF_URI % c, "cls": c, "how": rng.choice(["decorated", "explicit"])} for c in names]
+
+
+def mapped_payload(pi, t):
+    """ERROR payloads around the constructor signatures of the defined classes (None = element absent on the wire)."""
+    return [
+        (None, None),
+        ([t], None),
+        ([t, 7], None),
+        ([t, 7, "x"], None),
+        ([], {"balance": t, "required": 7}),
+        (None, {"code": t}),
+        ([], {"code": t, "reason": "r"}),
+        ([t], {"required": 7}),
+        ([], {"balance": t, "required": 7, "currency": "EUR"}),
+        ([t], {"msg": "dup"}),
+        ([], {"msg": t, "code": 3}),
+        ([t], {}),
+    ][pi]
+
+
+N_MAPPED_PAYLOADS = 12
 
 
 # ------------------------------------------------------------------------------------------------
@@ -146,6 +197,8 @@ def cfg_random(rng):
             c["rs_max_exp"] = RS_MAX_EXP        # the router announces a 4 KiB limit: oversize requests make send() raise
     if c["serializer"] != "ubjson" and rng.random() < 0.2:
         c["codec"] = True                       # session.set_payload_codec(stub): call/publish payloads travel as one encoded octet string
+    if rng.random() < 0.3:
+        c["defs"] = gen_defs(rng)               # session.define(): ERROR replies bearing these URIs are turned into instances of user classes
     return c
 
 
@@ -350,6 +403,7 @@ class Gen:
         self.zombie_regs = {}
         self.sync = False       # random histories: some replies are delivered from inside the transport's send()
         self.objs = {}          # object-form call label -> {"left": set(member labels), "ok": [labels]}
+        self.reentrant = False  # random histories: some requests get router messages (and nested requests) delivered inside their send()
 
     def label(self):
         self.n += 1
@@ -382,6 +436,14 @@ class Gen:
                 return self.issue_obj(kind)
             if self.sync and kind != "publish_unack" and rng.random() < 0.12:
                 force = dict(force, sync=rng.choice(["ok", "ok", "error"]))
+            elif self.reentrant and rng.random() < 0.1:
+                force = dict(force, inside="random")
+        inside = force.pop("inside", None)
+        if inside:
+            n = self.issue(kind, **force)
+            if self.steps and self.steps[-1].get("n") == n and self.steps[-1]["op"] in M.REQ_CODE and n not in self.local_unsubs:
+                self.attach_inside(n, inside)
+            return n
         sync = force.pop("sync", None)
         if sync:
             n = self.issue(kind, **force)
@@ -495,6 +557,63 @@ class Gen:
         self.steps.append({"op": kind + "_obj", "n": lab, "opts": call_opts, "methods": methods})
         return [m["n"] for m in methods]
 
+    # -- router messages delivered INSIDE the send() of request n; each handler issues a nested request ("then") ------------------
+    def inside_sites(self, n):
+        """Sites available right now: (site, target label)."""
+        out = []
+        p = self.pending.get(n)
+        if p and p["kind"] == "call" and p.get("on_progress"):
+            out.append(("progress-own", n))
+        for l, q in sorted(self.pending.items()):
+            if l == n or q.get("obj") is not None or q.get("cancelled"):
+                continue
+            if q["kind"] == "call" and q.get("on_progress"):
+                out.append(("progress-other", l))
+            if not (q["kind"] == "subscribe" and self.group_of.get(l) != l):
+                out.append(("completion-other", l))
+        for l in self.live_subs:
+            out.append(("event", l))
+        for l in self.live_regs:
+            out.append(("invocation", l))
+        return out
+
+    def attach_inside(self, n, specs):
+        """``specs``: "random" or [(site, target label or None, nested kind or True, mode or None)]."""
+        rng = self.rng
+        req_step = self.steps[-1]
+        if specs == "random":
+            specs = []
+            for _ in range(rng.choice([1, 1, 2, 3])):
+                specs.append((None, None, True, None))
+        split, self.split_replies = self.split_replies, False
+        inside = []
+        try:
+            for site, target, nk, mode in specs:
+                avail = self.inside_sites(n)
+                if site is not None:
+                    avail = [(s_, l) for s_, l in avail if s_ == site and (target is None or l == target)]
+                if not avail:
+                    continue
+                if site is None:
+                    site = rng.choice(sorted({s_ for s_, _ in avail}))       # the site class first: handler sites must not drown in completions
+                    avail = [(s_, l) for s_, l in avail if s_ == site]
+                    site, target = rng.choice(avail)
+                else:
+                    site, target = avail[0]
+                if site in ("progress-own", "progress-other"):
+                    self.reply(target, "progress", then=nk)
+                elif site == "completion-other":
+                    self.reply(target, mode or rng.choice(["ok", "ok", "error"]), then=nk)
+                elif site == "event":
+                    self.event(target, then=nk)
+                else:
+                    self.invoke(target, then=nk)
+                inside.append(self.steps.pop())
+        finally:
+            self.split_replies = split
+        if inside:
+            req_step["inside"] = inside
+
     def unsolicitable(self):
         """Pending calls without a progress handler (not cancelled, not part of an object-form call)."""
         return sorted(l for l, p in self.pending.items() if p["kind"] == "call" and not p.get("on_progress") and not p.get("cancelled"))
@@ -563,7 +682,10 @@ class Gen:
         return self.steps.pop()
 
     # -- replies
-    def reply(self, label=None, mode=None, shape=None, then=None):
+    def error_uris(self):
+        return ERR_URIS + [d["uri"] for d in self.cfg.get("defs") or []] * 3
+
+    def reply(self, label=None, mode=None, shape=None, then=None, error=None, payload=None):
         rng = self.rng
         if label is None:
             label = rng.choice(sorted(self.pending))
@@ -584,7 +706,12 @@ class Gen:
                 self.groups[label]["closed"] = True
         if mode == "error":
             a, k = self.pay.reply("e%d" % label, shape)
-            st.update(error="wamp.error.canceled" if p.get("cancelled") else rng.choice(ERR_URIS), args=a, kwargs=k)
+            uri = error or ("wamp.error.canceled" if p.get("cancelled") else rng.choice(self.error_uris()))
+            if payload is not None:
+                a, k = mapped_payload(payload, self.pay.tag("m%d" % label))
+            elif shape is None and (uri.startswith(DEF_URI % "") or uri in M.DEFAULT_MAPPED) and rng.random() < 0.7:
+                a, k = mapped_payload(rng.randrange(N_MAPPED_PAYLOADS), self.pay.tag("m%d" % label))
+            st.update(error=uri, args=a, kwargs=k)
         elif kind == "call":
             a, k = self.pay.reply(("g%d" if mode == "progress" else "r%d") % label, shape)
             st.update(args=a, kwargs=k)
@@ -682,6 +809,7 @@ def gen_history(rng):
     g.split_replies = True
     g.share = True
     g.sync = True
+    g.reentrant = True
     nsteps = rng.randint(2, 30)
     burst = rng.random() < 0.3
     ending = rng.choice(["drain", "drain", "violate", "violate", "leave"])
@@ -1317,6 +1445,133 @@ def unsolicited_case(spec, i, cfg):
     return g.case()
 
 
+# -- enumerated: router messages delivered INSIDE a request's send(), handlers issue nested requests (re-entrant API calls) --------
+REENTRANT_OUTER = ["call", "publish", "publish_unack", "subscribe", "register", "unsubscribe", "unregister"]
+REENTRANT_SITES = ["progress-own", "progress-other", "event", "invocation", "completion-ok", "completion-error", "two-messages"]
+
+
+def reentrant_cases():
+    out = []
+    for outer in REENTRANT_OUTER:
+        for site in REENTRANT_SITES:
+            if site == "progress-own" and outer != "call":
+                continue
+            for nk in NESTED_KINDS:
+                out.append((outer, site, nk))
+    return out
+
+
+def reentrant_case(spec, i, cfg):
+    outer, site, nk = spec
+    g = Gen(random.Random(31000 + i), cfg)
+    if i % 3 == 0:
+        g.issue("publish_unack")                                 # the ids do not start at 1 / an unacknowledged id lies in between
+    s0 = g.issue("subscribe", opts={"details": True} if i % 2 else None)
+    r0 = g.issue("register")
+    sx = g.issue("subscribe")
+    rx = g.issue("register")
+    for l in (r0, s0, rx, sx):
+        g.reply(l, "ok")
+    other = g.issue("call", opts={"on_progress": True})         # outstanding all along
+    pb = g.issue("publish")
+    # what the router delivers while the outer request is inside send()
+    if site == "progress-own":
+        inside = [("progress-own", None, nk, None)]
+    elif site == "progress-other":
+        inside = [("progress-other", other, nk, None)]
+    elif site == "event":
+        inside = [("event", s0, nk, None)]
+    elif site == "invocation":
+        inside = [("invocation", r0, nk, None)]
+    elif site.startswith("completion"):
+        inside = [("completion-other", pb, nk, site.partition("-")[2])]
+    else:
+        inside = [("event", s0, nk, None), ("invocation", r0, NESTED_KINDS[(i + 1) % len(NESTED_KINDS)], None),
+                  ("progress-other", other, "call", None)]
+    if outer == "call":
+        n = g.issue("call", opts={"on_progress": True} if site in ("progress-own", "two-messages") or i % 2 else None, inside=inside)
+    elif outer == "unsubscribe":
+        n = g.issue("unsubscribe", of=sx, inside=inside)
+    elif outer == "unregister":
+        n = g.issue("unregister", of=rx, inside=inside)
+    else:
+        n = g.issue(outer, inside=inside)
+    # the id sequence continues without a gap / repetition after the re-entered request
+    after = [g.issue("call"), g.issue("publish")]
+    g.issue("publish_unack")
+    if n in g.pending and g.pending[n]["kind"] == "call" and g.pending[n].get("on_progress"):
+        g.reply(n, "progress", "both")
+    # everything outstanding (outer, nested, background) is answered: nested first or last, outer in between
+    pend = sorted(g.pending, reverse=bool(i % 2))
+    for j, l in enumerate(pend):
+        g.reply(l, "error" if (l + i) % 4 == 0 else "ok")
+        if j == 0:
+            g.event(s0)
+        if j == 1:
+            g.invoke(r0)
+    return g.case()
+
+
+# -- enumerated: ERROR replies whose URI is mapped to an exception class x payloads that do / do not fit its constructor ----------
+def errmap_cases(tier="thorough"):
+    out = []
+    for ci, cname in enumerate(M.ERROR_CLASS_NAMES + sorted(M.DEFAULT_MAPPED)):
+        for pi in range(N_MAPPED_PAYLOADS):
+            # quick: every (class, payload) with three of the six request kinds (alternating halves), thorough: all six
+            for kind in (M.KINDS if tier != "quick" else M.KINDS[(ci + pi) % 2::2]):
+                out.append((cname, pi, kind))
+    return out
+
+
+def errmap_case(spec, i, cfg):
+    cname, pi, kind = spec
+    rng = random.Random(33000 + i)
+    cfg = dict(cfg)
+    if cname in M.DEFAULT_MAPPED:
+        uri = cname                                            # mapped by the library itself, nothing defined (every third case: plus unrelated classes)
+        if i % 3 == 0:
+            cfg["defs"] = gen_defs(rng, ["any", "fixed2"])
+    else:
+        others = [c for c in M.ERROR_CLASS_NAMES if c != cname]
+        cfg["defs"] = gen_defs(rng, [cname] + rng.sample(others, i % 3))
+        cfg["defs"][0]["how"] = "decorated" if i % 2 else "explicit"
+        uri = DEF_URI % cname
+    g = Gen(rng, cfg)
+    s0 = g.issue("subscribe")
+    r0 = g.issue("register")
+    g.reply(r0, "ok")
+    g.reply(s0, "ok")
+    bg = [g.issue("call", opts={"on_progress": True}), g.issue("publish"), g.issue("subscribe"), g.issue("register")]
+    if kind == "unsubscribe":
+        to = g.issue("unsubscribe", of=s0)
+    elif kind == "unregister":
+        to = g.issue("unregister", of=r0)
+    elif kind == "call":
+        to = g.issue("call", opts=[None, {"details": True}, {"on_progress": True}][i % 3])
+    else:
+        to = g.issue(kind)
+    late = g.issue("call")
+    g.reply(bg[0], "progress", "both")
+    order = [to, late] if i % 2 else [late, to]
+    for l in order:
+        if l == to:
+            g.reply(to, "error", error=uri, payload=pi)        # the reply under test, other requests of all kinds outstanding
+        else:
+            g.reply(late, "error", error=uri, payload=(pi + 5) % N_MAPPED_PAYLOADS)
+    if kind != "unsubscribe":
+        g.event(s0)
+    # the other outstanding requests complete with their own replies - one more mapped ERROR among them
+    for j, l in enumerate(reversed(bg)):
+        if j == 1:
+            g.reply(l, "error", error=uri, payload=(pi + 1) % N_MAPPED_PAYLOADS)
+        else:
+            g.reply(l, "ok" if (l + i) % 3 else "error")
+    g.reply(g.issue("publish"), "ok")
+    if i % 4 == 0:
+        g.steps.append({"op": "violate", "cls": "duplicate", "to": to, "variant": "same", "salt": i})
+    return g.case()
+
+
 def codec_cases():
     """Every call / publish option under a payload codec, plus reply-order permutations with encoded replies."""
     out = [("opt", i) for i, (kind, o) in enumerate(option_cases()) if kind in ("call", "publish")]
@@ -1364,6 +1619,10 @@ def enumerated(tier):
         items += [("unsolicited", (i, j)) for i in range(len(unsolicited_cases()))]
     for j in range(2 if tier == "quick" else 6):
         items += [("codec", (i, j)) for i in range(len(codec_cases()))]
+    for j in range(2 if tier == "quick" else 8):
+        items += [("reentrant", (i, j)) for i in range(len(reentrant_cases()))]
+    for j in range(1 if tier == "quick" else 4):
+        items += [("errmap", (i, j, tier)) for i in range(len(errmap_cases(tier)))]
     items += [("idwrap", (i,)) for i in range(40 if tier == "quick" else 200)]
     items += [("sendfail", (i,)) for i in range(48 if tier == "quick" else 240)]
     return items
@@ -1409,6 +1668,12 @@ def build(item):
     if fam == "shared":
         i, j = a
         return shared_case(shared_cases()[i], i + 7 * j, cfg_rot(i + 3 * j))
+    if fam == "reentrant":
+        i, j = a
+        return reentrant_case(reentrant_cases()[i], i + 7 * j, cfg_rot(i + 3 * j) if j != 1 else cfg_codec(i))
+    if fam == "errmap":
+        i, j, tier = a
+        return errmap_case(errmap_cases(tier)[i], i + 5 * j, cfg_rot(i + 3 * j) if j != 2 else cfg_codec(i))
     if fam == "idwrap":
         return idwrap_case(a[0], cfg_rot(a[0]))
     if fam == "sendfail":
@@ -1436,7 +1701,7 @@ def run_shard(params, R):
         R.sample({"family": item[0], "fw": fw, "case": case}, kind=item[0], every=211)
     # random histories
     rng = random.Random((seed * 1000003 + part * 7919 + (0 if fw == "tx" else 104729)) & 0xFFFFFFFF)
-    n = 900 if tier == "quick" else 10000
+    n = 860 if tier == "quick" else 10000
     for i in range(n):
         case = gen_history(rng)
         M.execute(case, R, fw)
@@ -1466,7 +1731,10 @@ MANIFEST_ENTRY = {
              "method's options and complete their single future with each request's own reply; EVENTs/INVOCATIONs arriving while the UNSUBSCRIBE/"
              "UNREGISTER is in flight leave the transport up and every other outstanding request completes with its own reply; with a payload codec set the requests carry "
              "the same options and (enveloped) payload, encoded replies complete their requests; a cancelled call sends exactly one CANCEL, stays cancelled and "
-             "absorbs the router's late RESULT/ERROR/progress without disturbing other requests; pending tables match the model at "
+             "absorbs the router's late RESULT/ERROR/progress without disturbing other requests; requests issued by a handler that runs while another request is still inside "
+             "send() (router messages delivered re-entrantly by the loopback-style wrapper) get the next fresh ids in wire order and both complete with their own replies; an ERROR "
+             "whose URI is mapped to an exception class (define() or the library's own two) completes its request once with that class built from the reply's payload, or with the "
+             "generic ApplicationError when the constructor refuses the payload; pending tables match the model at "
              "every step. All k! reply orders for k<=6 outstanding mixed requests are enumerated. Held = no deviation on the executions in the evidence."),
     "note": ("trusts vf/c04_model.py (spec tables), vf/wamp_harness.py, the plain serializer libraries on the router side; pending-table sizes and "
              "txaio.resolve/reject attempt counts are hooks; real payload encryption (cryptobox KeyRing) and float timeouts are not driven; "
